@@ -208,6 +208,9 @@ def gen_ode_solve(rng, knobs, neq=NEQ):
         "shape": rng.randrange(3),
         "throw_at": throw_at,
         "throw_kind": rng.randrange(2),
+        # what a second integrate_adaptive call inside the same Solve (a retry) would need
+        "nsteps2": rng.choice([1, 1, max(1, mx - 1), mx, mx + 1, rng.randint(1, 2 * mx + 1)]),
+        "throw_at2": -1 if rng.random() < 0.8 else 0,
     }
 
 
@@ -330,6 +333,16 @@ def ladder_stratum():
                 runs.append({"variant": "odeint", "nsys": 1, "origin": ["budget", mx, n, shape], "solves": [
                     {"mode": m, "reset": 0, "mxsteps": mx, "dt": 1e9, "y0c": [0.0, 0.25, 1.5, 7.0, 3.0],
                      "nsteps": n, "shape": shape, "throw_at": -1, "throw_kind": 0} for m in (0, 1)]})
+    # odeint: a failing first attempt (budget or integrator exception) where a second attempt,
+    # if the code under test makes one, would find an easy / a hard problem
+    for variant in ("odeint", "odeint_plain"):
+        for mx in (5, 100):
+            for n, throw_at in ((mx + 1, -1), (3, 1), (mx, mx - 1), (2 * mx, -1)):
+                for n2 in (1, mx, mx + 1):
+                    runs.append({"variant": variant, "nsys": 1, "origin": ["retry", mx, n, throw_at, n2], "solves": [
+                        {"mode": m, "reset": 0, "mxsteps": mx, "dt": 1e9, "y0c": Y0_BASE[: neq_of(variant)],
+                         "nsteps": n, "shape": 0, "throw_at": throw_at, "throw_kind": k, "nsteps2": n2, "throw_at2": -1}
+                        for m in (0, 1) for k in (0, 1)]})
     return runs
 
 
@@ -343,7 +356,7 @@ def encode_run(rid, run):
         y0 = [c * s["dt"] for c in s["y0c"]]
         head = f"solve {s['mode']} {s['reset']} {s['mxsteps']} {hexf(s['dt'])} {len(y0)} " + " ".join(hexf(v) for v in y0)
         if is_odeint(run["variant"]):
-            tail = f"{s['nsteps']} {s['shape']} {s['throw_at']} {s['throw_kind']}"
+            tail = f"{s['nsteps']} {s['shape']} {s['throw_at']} {s['throw_kind']} {s.get('nsteps2', 1)} {s.get('throw_at2', -1)}"
         else:
             tail = f"{len(s['outcomes'])} " + " ".join(f"{o[0]} {hexf(o[1])}" for o in s["outcomes"])
             tail += f" {len(s['reinit_fail'])} " + " ".join(f"{k} {f}" for k, f in s["reinit_fail"])
@@ -395,7 +408,10 @@ def judge(variant, solve, res, mx_eff=None):
     if success and not advanced:
         bad.append("success-without-exact-interval")
     if is_odeint(variant):
-        if solve["nsteps"] > (mx_eff or solve["mxsteps"]) and success:
+        # the steps the LAST integrate_adaptive call of this Solve needed (a retry that restores the
+        # state and then stays within the budget is not a violation; the unchanged code calls once)
+        need = solve["nsteps"] if res.get("calls", 1) <= 1 else solve.get("nsteps2", 1)
+        if need > (mx_eff or solve["mxsteps"]) and success:
             bad.append("budget-exceeded-reported-as-success")
         return bad
     if res["capped"]:
